@@ -182,6 +182,20 @@ func (fv *FuncVC) mapLen(s *State, m Term) Term {
 func (fv *FuncVC) lookup(x *ssa.Lookup) {
 	switch u := under(x.X.Type()).(type) {
 	case *types.Map:
+		// registration tables filled by init only: contents read back from the SSA of init
+		if ld, ok := x.X.(*ssa.UnOp); ok && ld.Op == token.MUL {
+			if g, ok := ld.X.(*ssa.Global); ok {
+				if rt := fv.W.regTableOf(g); rt.OK && !(fv.Fn.Name() == "init" || fv.Fn == rt.Reg) {
+					v, h := fv.tableLookup(rt, fv.val(x.Index), u.Key())
+					if x.CommaOk {
+						fv.tuples[x] = []Term{ite(h, v, intLit(0)), h}
+					} else {
+						fv.define(x, ite(h, v, intLit(0)))
+					}
+					return
+				}
+			}
+		}
 		has, get, _, vs := fv.mapFuns(u)
 		m, k := fv.val(x.X), fv.val(x.Index)
 		ver := fv.mapsVersion(fv.cur)
@@ -509,10 +523,22 @@ func (fv *FuncVC) applyContract(site ssa.Instruction, fc *FuncContract, key stri
 		fv.abort("contract %s has %d parameters, call has %d arguments", key, len(formals), len(args))
 	}
 	env.vars = map[string]Term{}
+	// concrete byte slices handed to a callee that treats them as an abstract accumulator (A-APPEND)
+	var concArg *Term
 	for i, f := range formals {
 		a := args[i]
 		if a.T == nil {
 			a.T = argTypes[i]
+		}
+		if fc.isAbstract(f.Name) && a.Sort == SSlice {
+			if concArg != nil {
+				fv.abort("call of %s passes two concrete slices as abstract accumulators", key)
+			}
+			ca := a
+			concArg = &ca
+			ab := fv.freshConst("abs."+mangle(f.Name), SBSeq)
+			fv.assumeHere(eq(mk(SInt, "slen", ab), slLen(a)))
+			a = ab
 		}
 		env.vars[f.Name] = a
 	}
@@ -573,6 +599,9 @@ func (fv *FuncVC) applyContract(site ssa.Instruction, fc *FuncContract, key stri
 			fv.assume(fv.TE.rangeFact(r, rt))
 		}
 		env.vars[name] = r
+		if sortS == SBSeq && concArg != nil {
+			r = fv.concretize(short, name, r, *concArg, pre, rt)
+		}
 		results = append(results, r)
 	}
 	// postconditions are evaluated in the new state, old() in pre
@@ -586,6 +615,35 @@ func (fv *FuncVC) applyContract(site ssa.Instruction, fc *FuncContract, key stri
 		}
 	}
 	return results
+}
+
+// concretize gives the concrete reading of an abstract accumulator result (assumption A-APPEND,
+// the semantics of Go's append lifted over callees that use the accumulator only through append):
+// the result slice holds exactly the abstract sequence; it is the argument's array when the
+// sequence fits into the argument's capacity and a fresh array otherwise; memory changes only in
+// the argument's spare capacity [ptr+len, ptr+cap) and in memory allocated during the call.
+func (fv *FuncVC) concretize(short, name string, abs Term, arg Term, pre *State, rt types.Type) Term {
+	r := fv.freshConst(fmt.Sprintf("res.%s.%s.conc", mangle(short), mangle(name)), SSlice)
+	r.T = rt
+	fv.assume(fv.TE.rangeFact(r, rt))
+	n := mk(SInt, "slen", abs)
+	brk0 := fv.ghostVal(pre, "$brk")
+	brk1 := fv.ghostVal(fv.cur, "$brk")
+	fv.assumeHere(eq(slLen(r), n))
+	fv.assumeHere(le(slLen(r), slCap(r)))
+	fits := le(n, slCap(arg))
+	fv.assumeHere(implies(fits, and(eq(slPtr(r), slPtr(arg)), eq(slCap(r), slCap(arg)))))
+	fv.assumeHere(implies(not(fits), and(le(brk0, slPtr(r)), le(add(slPtr(r), slCap(r)), brk1))))
+	old := fv.heap(fv.cur, "M", SInt)
+	nh := fv.newHeapVersion("M")
+	lo, hi := add(slPtr(arg), slLen(arg)), add(slPtr(arg), slCap(arg))
+	fv.assumeHere(Term{S: fmt.Sprintf("(forall ((a!f Int)) (! (=> (and (< a!f %s) (or (< a!f %s) (>= a!f %s))) (= (select %s a!f) (select %s a!f))) :pattern ((select %s a!f))))",
+		brk0.S, lo.S, hi.S, nh.S, old.S, nh.S), Sort: SBool})
+	fv.assume(Term{S: byteHeapFact(nh), Sort: SBool})
+	fv.assumeHere(Term{S: fmt.Sprintf("(forall ((i!c Int)) (! (=> (and (<= 0 i!c) (< i!c %s)) (= (select %s (+ %s i!c)) (at %s i!c))) :pattern ((at %s i!c))))",
+		n.S, nh.S, slPtr(r).S, abs.S, abs.S), Sort: SBool})
+	fv.setHeap(fv.cur, "M", nh)
+	return r
 }
 
 func (fc *FuncContract) isAbstract(name string) bool {
